@@ -176,7 +176,7 @@ func containerSizes(t *ref.Type, tier Tier) []int {
 		// 1024 i16), one more, and an odd count (element pairs written with wide stores)
 		s = append(s, 256, 257, 512, 1024, 1025)
 		if tier == Thorough {
-			s = append(s, 255, 511, 513, 1023, 2047, 2048, 2049, 4096, 70000) // and one count beyond 65535 elements (each such value costs ~7 MB of model memory per copy)
+			s = append(s, 255, 511, 513, 1023, 2047, 2048, 2049, 4096) // (counts beyond 65535 are in the C01 "huge" phase: in the generic alphabets every copy of such a value costs ~7 MB of model memory and the workers ran out of it)
 		}
 	}
 	if tier == Thorough {
